@@ -40,7 +40,7 @@ func main() {
 			return err
 		}
 		g := &gctx{svc: svc, ss: ss, rt: rt, l: l}
-		for _, f := range []func() error{g.consts, g.perf, g.natTimeout, g.mtu, g.pskLengths, g.policies, g.filterSize, g.directTargetOnly, g.defaultClient, g.legacy, g.setNames} {
+		for _, f := range []func() error{g.consts, g.perf, g.natTimeout, g.mtu, g.pskLengths, g.policies, g.filterSize, g.directTargetOnly, g.defaultClient, g.legacy, g.setNames, g.serverIndex} {
 			if err := f(); err != nil {
 				return err
 			}
@@ -70,7 +70,7 @@ func (g *gctx) consts() error {
 		}
 		g.l.NatDef(n, v, "service."+n)
 	}
-	for _, n := range []string{"ReplayWindowDuration", "DefaultSlidingWindowFilterSize"} {
+	for _, n := range []string{"ReplayWindowDuration", "DefaultSlidingWindowFilterSize", "MaxEpochDiff"} {
 		v, err := g.ss.ConstInt(n)
 		if err != nil {
 			return err
@@ -976,4 +976,81 @@ func (p *pkg) EvalInt(e ast.Expr) (string, bool) {
 		return "", false
 	}
 	return v.String(), true
+}
+
+// ---- server indices: every server gets an entry in serverIndexByName (duplicates refused); the router sizes
+// ---- the fromServers bit set by the size of that map and tests the bit of the requesting server's index ----
+
+func (g *gctx) serverIndex() error {
+	fd, err := g.svc.Func("*Config", "Manager")
+	if err != nil {
+		return err
+	}
+	var loops []*ast.RangeStmt
+	ast.Inspect(fd.Body, func(n ast.Node) bool {
+		if rs, ok := n.(*ast.RangeStmt); ok && g.svc.Src(rs.X) == "sc.Servers" && strings.Contains(g.svc.Src(rs.Body), "serverIndexByName") {
+			loops = append(loops, rs)
+		}
+		return true
+	})
+	if len(loops) != 1 {
+		return fmt.Errorf("Config.Manager: expected one loop over sc.Servers filling serverIndexByName, found %d", len(loops))
+	}
+	lp := loops[0]
+	if g.svc.Src(lp.Key) != "i" || lp.Value != nil {
+		return fmt.Errorf("Config.Manager: server index loop is not `for i := range sc.Servers`")
+	}
+	want := []*regexp.Regexp{
+		regexp.MustCompile(`^serverConfig := &sc\.Servers\[i\]$`),
+		regexp.MustCompile(`^if dupIndex, ok := serverIndexByName\[serverConfig\.Name\]; ok \{ return nil, fmt\.Errorf\(.*\) \}$`),
+		regexp.MustCompile(`^serverIndexByName\[serverConfig\.Name\] = i$`),
+	}
+	if len(lp.Body.List) != len(want) {
+		return fmt.Errorf("Config.Manager: server index loop has %d statements, expected %d (every server must contribute its index; duplicates refused): %q", len(lp.Body.List), len(want), g.svc.Src(lp.Body))
+	}
+	for i, st := range lp.Body.List {
+		if !want[i].MatchString(g.svc.Src(st)) {
+			return fmt.Errorf("Config.Manager: unrecognised statement in the server index loop: %q", g.svc.Src(st))
+		}
+	}
+	body := g.svc.Src(fd.Body)
+	for _, need := range []string{"serverIndexByName := make(map[string]int, len(sc.Servers))", "udpClientMap, serverIndexByName)", "serverConfig.Initialize(tlsCertStore, listenConfigCache, statsConfig, router, logger, i)"} {
+		if !strings.Contains(body, need) {
+			return fmt.Errorf("Config.Manager: %q not found", need)
+		}
+	}
+	// every other statement about the map
+	for _, st := range stmtsMentioning(g.svc, fd.Body, "serverIndexByName") {
+		src := g.svc.Src(st)
+		switch {
+		case src == "serverIndexByName := make(map[string]int, len(sc.Servers))":
+		case strings.HasPrefix(src, "router, err := sc.Router.Router("):
+		case strings.HasPrefix(src, "if dupIndex, ok := serverIndexByName[serverConfig.Name]; ok"), src == "serverIndexByName[serverConfig.Name] = i":
+		default:
+			return fmt.Errorf("Config.Manager: unrecognised statement about serverIndexByName: %q", src)
+		}
+	}
+	rf, err := g.rt.Func("*RouteConfig", "Route")
+	if err != nil {
+		return err
+	}
+	seen := 0
+	for _, st := range stmtsMentioning(g.rt, rf.Body, "serverIndexByName") {
+		src := g.rt.Src(st)
+		switch src {
+		case "sourceServerSet := bitset.NewBitSet(uint(len(serverIndexByName)))", "index, ok := serverIndexByName[server]":
+			seen++
+		default:
+			return fmt.Errorf("RouteConfig.Route: unrecognised statement about serverIndexByName: %q", src)
+		}
+	}
+	mt, err := g.rt.Func("SourceServerCriterion", "Meet")
+	if err != nil {
+		return err
+	}
+	if seen != 2 || g.rt.Src(mt.Body) != "{ return bitset.BitSet(c).IsSet(uint(requestInfo.ServerIndex)), nil }" {
+		return fmt.Errorf("router: fromServers bit set is not sized by len(serverIndexByName) / tested at requestInfo.ServerIndex")
+	}
+	g.l.BoolDef("serverIndexEveryServer", true, "Config.Manager: every server stores its index under its name (duplicate names refused); router: fromServers bit set of capacity len(serverIndexByName), tested at the requesting server's index")
+	return nil
 }
